@@ -433,6 +433,9 @@ func short(m proto.Message) string {
 	return strings.Join(strings.Fields(prototext.MarshalOptions{}.Format(m)), " ")
 }
 
+// anyElection marks an expected election-id message whose value is not asserted.
+var anyElection = &spb.ModifyRequest{ElectionId: &spb.Uint128{}}
+
 func runCase(c Case) *ev.Verdict {
 	v := &ev.Verdict{}
 	tb := captb.New("c18")
@@ -457,6 +460,8 @@ func runCase(c Case) *ev.Verdict {
 
 	var eb []*ebuilder
 	var rb []*rbuilder
+	var done [][]*spb.ModifyRequest // expected messages of the streams that restarts have closed
+	restarts := 0
 	retained := cl.Modify()
 	chain := cl.Modify()
 	staleHandle := false // a kept or chained handle was used after an election update made through any handle
@@ -590,6 +595,48 @@ func runCase(c Case) *ev.Verdict {
 			if queues > 0 {
 				elecSinceQueue = true
 			}
+		case "restart":
+			// Stop + Start + StartSending on the same fluent client, once everything queued so
+			// far has reached the server: ids keep counting and operations keep being stamped
+			// with the id of the latest UpdateElectionID
+			if !started {
+				continue
+			}
+			cst := stub.Stream(len(done))
+			if cst == nil || !cst.WaitSent(len(want)) {
+				n := -1
+				if cst != nil {
+					n = len(cst.SentCopy())
+				}
+				v.Fail("C18/messages-missing", "statement %d (restart): the server received %d messages, the program queued %d", i, n, len(want))
+				return v
+			}
+			done = append(done, want)
+			want = nil
+			tr := captb.New("c18")
+			if f := tr.Run(func(t testing.TB) {
+				cl.Stop(t)
+				cl.Start(ctx, t)
+				cl.StartSending(ctx, t)
+			}); f != nil || tr.Fataled() {
+				v.Fail("C18/restart", "statement %d: Stop/Start/StartSending failed: %v %v", i, f, tr.Fatals)
+				return v
+			}
+			restarts++
+			// the new session's handshake: parameters as configured, then (elected mode) an
+			// election id whose value the property does not fix
+			p := &spb.SessionParameters{}
+			if c.Mode == "elected" {
+				p.Redundancy = spb.SessionParameters_SINGLE_PRIMARY
+				p.Persistence = spb.SessionParameters_PRESERVE
+			}
+			if c.FIB {
+				p.AckType = spb.SessionParameters_RIB_AND_FIB_ACK
+			}
+			want = append(want, &spb.ModifyRequest{Params: p})
+			if c.Mode == "elected" {
+				want = append(want, anyElection)
+			}
 		case "startsending":
 			if started {
 				continue
@@ -626,49 +673,62 @@ func runCase(c Case) *ev.Verdict {
 		v.NonTrivial = false
 		return v
 	}
-	st := stub.Stream(0)
-	if st == nil {
-		v.Fail("C18/no-stream", "no Modify stream was opened")
-		return v
-	}
-	if !st.WaitSent(len(want)) {
-		v.Fail("C18/messages-missing", "the server received %d messages, the program queued %d", len(st.SentCopy()), len(want))
-		return v
-	}
-	got := st.SentCopy()
-	if len(got) != len(want) {
-		v.Fail("C18/message-count", "the server received %d messages, want %d", len(got), len(want))
-		return v
-	}
-	for i := range want {
-		if !proto.Equal(got[i], want[i]) {
-			kind := "other"
-			switch {
-			case want[i].Params != nil:
-				kind = "params"
-			case want[i].ElectionId != nil:
-				kind = "election"
-			case len(want[i].Operation) > 0:
-				kind = "operation"
-				if len(got[i].Operation) == len(want[i].Operation) {
-					for j := range want[i].Operation {
-						g, w := got[i].Operation[j], want[i].Operation[j]
-						switch {
-						case g.GetId() != w.GetId():
-							kind = "operation-id"
-						case g.GetOp() != w.GetOp():
-							kind = "operation-type"
-						case !proto.Equal(g.GetElectionId(), w.GetElectionId()):
-							kind = "operation-election-stamp"
-						case !proto.Equal(g, w):
-							kind = "operation-payload"
+	done = append(done, want)
+	for si, want := range done {
+		st := stub.Stream(si)
+		if st == nil {
+			v.Fail("C18/no-stream", "Modify stream %d was not opened", si)
+			return v
+		}
+		if !st.WaitSent(len(want)) {
+			v.Fail("C18/messages-missing", "stream %d: the server received %d messages, the program queued %d", si, len(st.SentCopy()), len(want))
+			return v
+		}
+		got := st.SentCopy()
+		if len(got) != len(want) {
+			v.Fail("C18/message-count", "stream %d: the server received %d messages, want %d", si, len(got), len(want))
+			return v
+		}
+		for i := range want {
+			if want[i] == anyElection {
+				if got[i].GetElectionId() == nil || got[i].Params != nil || len(got[i].Operation) > 0 {
+					v.Fail("C18/message-mismatch:election", "stream %d message %d received by the server is {%s}, want an election id", si, i, short(got[i]))
+					return v
+				}
+				continue
+			}
+			if !proto.Equal(got[i], want[i]) {
+				kind := "other"
+				switch {
+				case want[i].Params != nil:
+					kind = "params"
+				case want[i].ElectionId != nil:
+					kind = "election"
+				case len(want[i].Operation) > 0:
+					kind = "operation"
+					if len(got[i].Operation) == len(want[i].Operation) {
+						for j := range want[i].Operation {
+							g, w := got[i].Operation[j], want[i].Operation[j]
+							switch {
+							case g.GetId() != w.GetId():
+								kind = "operation-id"
+							case g.GetOp() != w.GetOp():
+								kind = "operation-type"
+							case !proto.Equal(g.GetElectionId(), w.GetElectionId()):
+								kind = "operation-election-stamp"
+							case !proto.Equal(g, w):
+								kind = "operation-payload"
+							}
 						}
 					}
 				}
+				v.Fail("C18/message-mismatch:"+kind, "stream %d message %d received by the server is {%s}, want {%s}", si, i, short(got[i]), short(want[i]))
+				return v
 			}
-			v.Fail("C18/message-mismatch:"+kind, "message %d received by the server is {%s}, want {%s}", i, short(got[i]), short(want[i]))
-			return v
 		}
+	}
+	if restarts > 0 {
+		v.Class("restarted-client")
 	}
 	if callAfterQueue {
 		v.Class("builder-call-after-queue")
@@ -822,6 +882,8 @@ func drawCase(rt *rapid.T) Case {
 			c.Prog = append(c.Prog, st)
 		case k < 17:
 			c.Prog = append(c.Prog, Stmt{K: "elec", U: uint64(rapid.IntRange(1, 9).Draw(rt, "lo")), U2: uint64(rapid.IntRange(0, 2).Draw(rt, "hi")), H: drawHandle(rt)})
+		case k == 17 && rapid.IntRange(0, 2).Draw(rt, "restart?") == 0:
+			c.Prog = append(c.Prog, Stmt{K: "restart"})
 		default:
 			c.Prog = append(c.Prog, Stmt{K: "check", B: rapid.IntRange(0, len(kinds)-1).Draw(rt, "b")})
 		}
